@@ -12,6 +12,10 @@ func parseReferenceInfo(s string) pars.Parser {
 	parser := pars.Seq(pars.Int, " to ", pars.Int).Map(func(result *pars.Result) error {
 		start := result.Children[0].Value.(int) - 1
 		end := result.Children[2].Value.(int)
+		if start < 0 || end <= start {
+			// "5 to 3" or "0 to 3" is not a base range (gts.Range would panic).
+			return fmt.Errorf("invalid base range %d to %d", start+1, end)
+		}
 		result.SetValue(gts.Range(start, end))
 		return nil
 	})
